@@ -705,6 +705,41 @@ Lemma cache_entry rs st :
   auction_cache rs st = match st_win st with Some w => CBid (p_bid w) | None => CDummy end.
 Proof. intros Hne. destruct rs; [contradiction | reflexivity]. Qed.
 
+(* BuilderBid calls made later for the auction's key: a cache entry (winning bid or dummy) is
+   answered as it is and stays, no relay is asked -- whatever the relays would answer by then *)
+Lemma late_queries_entry cfgs c :
+  c <> CNothing ->
+  forall nows, late_queries cfgs c nows = map (fun _ => (serve_cached c, false)) nows.
+Proof.
+  intros Hc nows. induction nows as [|now rest IH]; [reflexivity|].
+  cbn [late_queries map]. destruct c as [| |b]; [contradiction| |]; cbn [builder_bid]; rewrite IH; reflexivity.
+Qed.
+
+Lemma late_queries_after_auction cfgs s rs ord nows :
+  arrival_order s rs ord -> rs <> [] ->
+  late_queries cfgs (auction_cache rs (result_of cfgs s ord)) nows
+  = map (fun _ => (option_map (fun w => b_uid (p_bid w)) (st_win (result_of cfgs s ord)), false)) nows.
+Proof.
+  intros Hord Hne. rewrite late_queries_entry.
+  - apply map_ext. intros _. f_equal.
+    rewrite (cache_entry rs _ Hne). destruct (st_win (result_of cfgs s ord)) as [w|] eqn:Hw; [|reflexivity].
+    cbn [serve_cached option_map].
+    pose proof (result_winner_value_nonzero cfgs s rs ord w Hord Hw) as Hv.
+    assert (H0 : (0 <? b_value (p_bid w)) = true) by (apply N.ltb_lt; lia).
+    rewrite H0. reflexivity.
+  - rewrite (cache_entry rs _ Hne). destruct (st_win (result_of cfgs s ord)); discriminate.
+Qed.
+
+(* no relay configured, then and later: nothing is cached, every later call runs an (empty)
+   auction, asks nobody and answers "no bid" *)
+Lemma late_queries_no_relays cfgs ss :
+  late_queries cfgs CNothing (map (fun s => (s, [])) ss) = map (fun _ => (None, false)) ss.
+Proof.
+  induction ss as [|s rest IH]; [reflexivity|].
+  cbn [map late_queries builder_bid fst snd auction_state auction_cache serve_immediate init st_win].
+  rewrite IH. reflexivity.
+Qed.
+
 (* ------------------------------------------------------------------------------------------ *)
 (* The orders the model and the check use are arrival orders. *)
 
